@@ -182,7 +182,7 @@ func c02Query(ms []Matcher, kind string, rng, off int64) string {
 	return metric + ")"
 }
 
-func (propC02) Expand(p *Plan) []*Plan { return []*Plan{p} }
+func (propC02) Expand(t *testing.T, p *Plan) []*Plan { return []*Plan{p} }
 
 // ShrinkCandidates proposes simpler queries: one matcher fewer.
 func (propC02) ShrinkCandidates(p *Plan) []*Plan {
